@@ -48,6 +48,9 @@ structure State where
   pending : List Nat := []        -- requests registered in the stream table
   failed : List Nat := []         -- requests failed with a connection error
   connects : Nat := 0
+  taken : Nat := 0                -- transports obtained from the provider so far (they are numbered 0, 1, ...)
+  current : Option Nat := none    -- the transport `_next_transport` is resolved with (`none`: the future is pending)
+  closedT : List Nat := []        -- transports the client has closed, in order
 deriving Repr
 
 inductive Ev where
@@ -66,8 +69,11 @@ def step (s : State) : Ev → State
   | .connect =>
     { s with queue := [.setup], gate := false, alive := true, armed := false, nextId := 1, wire := [],
              epochs := if s.connects = 0 then s.epochs else s.epochs ++ [s.wire], connects := s.connects + 1 }
-  | .closeForReconnect => { s with gate := false, armed := false, failed := s.failed ++ s.pending, pending := [] }
-  | .providerYields => { s with gate := true, armed := s.alive }
+  | .closeForReconnect =>
+    -- `_close_transport`: the transport the (resolved) future holds is closed; the listener then installs a fresh future
+    { s with gate := false, armed := false, failed := s.failed ++ s.pending, pending := [],
+             closedT := s.closedT ++ s.current.toList, current := none }
+  | .providerYields => { s with gate := true, armed := s.alive, current := some s.taken, taken := s.taken + 1 }
   | .request => { s with queue := s.queue ++ [.req s.nextId], pending := s.pending ++ [s.nextId], nextId := s.nextId + 2 }
   | .response id => { s with pending := s.pending.filter (· != id) }
   | .keepaliveTick => { s with queue := s.queue ++ [.keepalive] }
